@@ -183,4 +183,126 @@ theorem parseCSeqVal_more_range (b : Buf) (o : Nat) (st : PCSeqBody) (hok : csOK
       rw [h] at key
       exact key rfl
 
+/-! ### after MoreBytes the object is not final -/
+
+theorem lwsStd_cont_state (b : Buf) (i : Nat) (st : σ) (eoh : σ → Nat → Nat → Nat → Nat × Err × σ) (mb : σ → σ)
+    {i' : Nat} {st' : σ} (h : lwsStd b i st eoh mb = .cont i' st') : st' = st := by
+  unfold lwsStd at h
+  rcases hsk : skipLWS b i 0 with ⟨n, crl, e⟩
+  rw [hsk] at h
+  cases e <;> simp only at h <;> cases h
+  rfl
+
+theorem lwsStd_more_state (b : Buf) (i : Nat) (st : σ) (eoh : σ → Nat → Nat → Nat → Nat × Err × σ) (mb : σ → σ)
+    (heoh : ∀ s j n crl, (eoh s j n crl).2.1 ≠ .moreBytes)
+    {o : Nat} {st' : σ} (h : lwsStd b i st eoh mb = .done o .moreBytes st') : st' = mb st := by
+  unfold lwsStd at h
+  rcases hsk : skipLWS b i 0 with ⟨n, crl, e⟩
+  rw [hsk] at h
+  cases e <;> simp only at h
+  case eoh =>
+    simp only [Step.done.injEq] at h
+    exact absurd h.2.1 (heoh _ _ _ _)
+  case moreBytes => simp only [Step.done.injEq] at h; exact h.2.2.symm
+  all_goals cases h
+
+theorem parseCallIDVal_more_notfin (b : Buf) (o : Nat) (st : PCallIDBody)
+    {o' : Nat} {st' : PCallIDBody} (h : parseCallIDVal b o st = (o', Err.moreBytes, st')) :
+    st'.state ≠ .fin := by
+  unfold parseCallIDVal at h
+  split at h
+  · cases h
+  · rename_i hf
+    refine runLoop_moreI ciMachine b (fun _ s => s.state ≠ .fin) (fun _ s => s.state ≠ .fin) ?_ ?_ ?_ o st hf h
+    · intro i c s i' s' hb hI hs _
+      change ciStep b i c s = .cont i' s' at hs
+      unfold ciStep at hs
+      split at hs
+      · cases hst : s.state <;> rw [hst] at hs <;> simp only at hs
+        all_goals first
+          | (rw [lwsStd_cont_state b i _ ciEOH id hs]; intro hh; cases hh)
+          | (rw [lwsStd_cont_state b i _ ciEOH id hs]; exact hI)
+          | exact absurd hst hI
+      · cases hst : s.state <;> rw [hst] at hs <;> simp only at hs <;> cases hs
+        all_goals first | (intro hh; cases hh) | exact hI | exact absurd hst hI
+    · intro i c s o2 s2 hb hI hs
+      change ciStep b i c s = .done o2 .moreBytes s2 at hs
+      unfold ciStep at hs
+      split at hs
+      · cases hst : s.state <;> rw [hst] at hs <;> simp only at hs
+        all_goals first
+          | (rw [lwsStd_more_state b i _ ciEOH id ciEOH_ne_more hs]; intro hh; cases hh)
+          | (rw [lwsStd_more_state b i _ ciEOH id ciEOH_ne_more hs]; exact hI)
+          | cases hs
+      · cases hst : s.state <;> rw [hst] at hs <;> simp only at hs <;> cases hs
+    · intro i s o2 s2 _ hI he
+      simp only [ciMachine, Prod.mk.injEq, true_and] at he
+      rw [← he.2]; exact hI
+
+theorem parseUIntVal_more_notfin (b : Buf) (o : Nat) (st : PUIntBody)
+    {o' : Nat} {st' : PUIntBody} (h : parseUIntVal b o st = (o', Err.moreBytes, st')) :
+    st'.state ≠ .fin := by
+  unfold parseUIntVal at h
+  split at h
+  · cases h
+  · rename_i hf
+    refine runLoop_moreI clMachine b (fun _ s => s.state ≠ .fin) (fun _ s => s.state ≠ .fin) ?_ ?_ ?_ o st hf h
+    · intro i c s i' s' hb hI hs _
+      change clStep b i c s = .cont i' s' at hs
+      unfold clStep at hs
+      split at hs
+      · cases hst : s.state <;> rw [hst] at hs <;> simp only at hs
+        all_goals first
+          | (rw [lwsStd_cont_state b i _ clEOH id hs]; intro hh; cases hh)
+          | (rw [lwsStd_cont_state b i _ clEOH id hs]; exact hI)
+          | exact absurd hst hI
+      · split at hs
+        · cases hst : s.state <;> rw [hst] at hs <;> simp only at hs
+          all_goals first
+            | exact absurd hst hI
+            | (cases hs; done)
+            | (cases hs; first | (intro hh; cases hh) | exact hI)
+            | (split at hs <;> cases hs; first | (intro hh; cases hh) | exact hI | (rw [hst]; intro hh; cases hh))
+        · cases hs
+    · intro i c s o2 s2 hb hI hs
+      change clStep b i c s = .done o2 .moreBytes s2 at hs
+      unfold clStep at hs
+      split at hs
+      · cases hst : s.state <;> rw [hst] at hs <;> simp only at hs
+        all_goals first
+          | (rw [lwsStd_more_state b i _ clEOH id clEOH_ne_more hs]; intro hh; cases hh)
+          | (rw [lwsStd_more_state b i _ clEOH id clEOH_ne_more hs]; exact hI)
+          | cases hs
+      · split at hs
+        · cases hst : s.state <;> rw [hst] at hs <;> simp only at hs
+          all_goals first
+            | cases hs
+            | (split at hs <;> cases hs)
+        · cases hs
+    · intro i s o2 s2 _ hI he
+      simp only [clMachine, Prod.mk.injEq, true_and] at he
+      rw [← he.2]; exact hI
+
+theorem parseCLenVal_more_notfin (b : Buf) (o : Nat) (st : PUIntBody)
+    {o' : Nat} {st' : PUIntBody} (h : parseCLenVal b o st = (o', Err.moreBytes, st')) :
+    st'.state ≠ .fin := by
+  unfold parseCLenVal at h
+  rcases hp : parseUIntVal b o st with ⟨o1, e1, s1⟩
+  rw [hp] at h
+  cases e1 <;> simp only at h
+  case ok => split at h <;> cases h
+  case moreBytes => cases h; exact parseUIntVal_more_notfin b o st hp
+  all_goals cases h
+
+theorem parseCSeqVal_more_notfin (b : Buf) (o : Nat) (st : PCSeqBody) (hok : csOK b o st)
+    {o' : Nat} {st' : PCSeqBody} (h : parseCSeqVal b o st = (o', Err.moreBytes, st')) :
+    st'.state ≠ .fin := by
+  unfold parseCSeqVal at h
+  split at h
+  · cases h
+  · rename_i hf
+    rcases hok with hok | hok
+    · exact absurd hok hf
+    · exact (cs_more_inv b o st hok hf h).2
+
 end Sipsp
